@@ -58,10 +58,11 @@ def static_obligations(tier):
 
 
 HEADINGS = ["# **All bold**", "## ***bold italic***", "# **part** bold", "# plain", "**Setext bold**\n===", "# **a** **b**",
-            "# *only italic*", "### **bold `code`**", "# __under bold__"]
+            "# *only italic*", "### **bold `code`**", "# __under bold__", "# ***Bold** and more*", "# *it **b** end*", "# ***x** y* z"]
 LISTS = ["- a\n- b\n", "- a\n\n- b\n", "1. x\n2. y\n", "- a\n\n  second para\n- b\n", "- a\n  - n1\n  - n2\n- b\n",
          "- a\n\n  - n1\n\n  - n2\n- b\n", "> - q1\n> - q2\n", "[^f]: note\n\n    - fa\n    - fb\n", "- a\n  ```\n  code\n  ```\n- b\n",
-         "* a\n* b\n\n+ c\n+ d\n"]
+         "* a\n* b\n\n+ c\n+ d\n", "> - q1\n>\n> - q2\n", "- a\n\n  > # h\n\n- b\n", "- a\n  > q\n- b\n", "- a\n\n  > [r]: http://x\n\n- b\n",
+         "1. x\n\n   > quote\n   >\n\n2. y\n", "> 1. x\n>\n>    more\n> 2. y\n", "- a\n\n  > - in\n  >\n  > - ner\n\n- b\n"]
 
 
 def strip_item_blank_lines(text):
@@ -107,8 +108,16 @@ def bounded(tier, seed):
                              "got": outs[m], "want": outs[ListSpacing.preserve]})
         if reformat_text(outs[ListSpacing.preserve], list_spacing=ListSpacing.preserve, semantic=False, cleanups=False) != outs[ListSpacing.preserve]:
             viol.append({"clause": "preserve_keeps_as_authored", "input": {"text": d}, "got": outs[ListSpacing.preserve]})
+        for m, o in outs.items():
+            ls = o.split("\n")
+            if ls[0].strip(" >") == "":
+                viol.append({"clause": "no_stray_separator_lines", "input": {"text": d, "mode": m.value}, "got": o})
         # loose: a blank line between the items of every list; tight: none where every item is a single block
         lo = outs[ListSpacing.loose].split("\n")
+        for i in range(1, len(lo)):
+            if re.match(r"^[ >]*([-*+]|\d+\.) ", lo[i]) and lo[i - 1].strip(" >") != "" and not re.match(r"^[ >]*([-*+]|\d+\.) +([-*+]|\d+\.) ", lo[i]):
+                viol.append({"clause": "loose_separates_items", "input": {"text": d}, "got": outs[ListSpacing.loose]})
+                break
         for i in range(1, len(lo)):
             if re.match(r"^[ >]*([-*+]|\d+\.) ", lo[i]) and re.match(r"^[ >]*([-*+]|\d+\.) ", lo[i - 1]) \
                     and len(re.match(r"^[ >]*", lo[i]).group()) == len(re.match(r"^[ >]*", lo[i - 1]).group()):
@@ -116,8 +125,8 @@ def bounded(tier, seed):
                 break
     return {"evaluations": evals, "distinct_nontrivial": len(distinct), "violations": viol,
             "samples": [{"heading": HEADINGS[1]}, {"list": LISTS[4]}],
-            "rule": "9 heading shapes x 2 contexts: cleanups on vs off differ only in the heading line and only for wholly-bold "
-                    "headings; 10 list shapes (nested, quoted, footnote, multi-block, code) + seeded pairs: the three list-spacing "
-                    "modes agree modulo blank lines, preserve is a fixed point, loose separates sibling items; distinct = distinct "
+            "rule": "12 heading shapes x 2 contexts: cleanups on vs off differ only in the heading line and only for wholly-bold "
+                    "headings; 17 list shapes (nested, quoted, lists opening a quote, items ending in quotes / headings / link definitions, footnote, multi-block, code) + seeded pairs: the three list-spacing "
+                    "modes agree modulo blank lines, preserve is a fixed point, loose separates sibling items, every item marker line in loose mode follows a separator line, no output starts with a separator line; distinct = distinct "
                     "baseline outputs",
             "exhaustive": False, "bound": "%d documents" % (len(HEADINGS) * 2 + len(docs))}
